@@ -103,7 +103,7 @@ def check_fanout(case, part):
                                roundtrip=True)
     kw = dict(n_batches=case["n_batches"])
     if case["idx"] is not None:
-        kw["samples_idx"] = np.array(case["idx"], dtype=np.int64)
+        kw["samples_idx"] = np.array(case["idx"], dtype=np.dtype(case.get("idx_dtype", "int64")))
         want_ids = list(case["idx"])
     elif case["n_prior"] is not None:
         kw["n_prior_samples"] = case["n_prior"]
@@ -144,7 +144,7 @@ def check_fanout_post(case, part):
     else:
         pool = seams.ModelPool(size=case["size"], chunksize=case.get("chunksize"),
                                order=(lambda n: list(range(n))[::-1]) if case.get("reverse") else None)
-    idx = np.array(case["idx"], dtype=np.int64)
+    idx = np.array(case["idx"], dtype=np.dtype(case.get("idx_dtype", "int64")))
     seams.reset_logs()
     try:
         res = make_full_samples(helper, path, pool, np.random.default_rng(2), idx, n_linear_samples=case["n_linear"], n_batches=case["n_batches"])
@@ -228,6 +228,12 @@ def build_cases(quick):
             for pool, size in (("serial", 1), ("model", 2), ("model", 3)):
                 fan.append(dict(kind="fanout", N=N, pool=pool, size=size, chunksize=1, reverse=(size == 3), n_batches=nb, n_prior=None, idx=idx))
                 fan.append(dict(kind="fanout_post", N=N, pool=pool, size=size, chunksize=1, reverse=(size == 3), n_batches=nb, n_linear=1, idx=idx))
+    # index arrays of other integer types (unsigned, 32-bit), containing zeros and repeats of large values
+    for dt in ("uint8", "uint16", "uint32", "uint64", "int32", "int16"):
+        for idx in ([5, 3, 7, 0, 6], [0, 0, 4], [7, 1]):
+            for nb in (None, 1, 2, 4):
+                fan.append(dict(kind="fanout", N=8, pool="serial", size=1, n_batches=nb, n_prior=None, idx=idx, idx_dtype=dt))
+                fan.append(dict(kind="fanout_post", N=8, pool="model", size=2, chunksize=1, reverse=False, n_batches=nb, n_linear=1, idx=[i for i in dict.fromkeys(idx)], idx_dtype=dt))
     for N in Ns:
         idxs = [list(range(N)), list(range(N))[::-1], [(3 * i + 1) % N for i in range(N)], [N - 1], [0, N - 1, 1][: min(3, N)]]
         for idx in idxs:
